@@ -1,6 +1,7 @@
 package main
 
 import (
+	"strings"
 	"context"
 	"crypto/ecdsa"
 	"crypto/ed25519"
@@ -203,6 +204,10 @@ func init() {
 					k.Set(jwk.KeyIDKey, m.kid)
 				}
 				k.Set("n_index", n)
+				if si%5 == 3 {
+					// key-set files have no size limit: a long private field makes the file large
+					k.Set("x-note", strings.Repeat("note ", 4000))
+				}
 				if err := set.AddKey(k); err != nil {
 					// jwx refuses duplicate identical keys: make the key distinct by its private field
 					continue
@@ -231,6 +236,24 @@ func init() {
 					}
 				} else {
 					stat("C18", "load-err")
+					// completeness, from the property text: the key with the requested id (or the only key when no
+					// id is given) is returned when it is an approved key
+					var wantKey jwk.Key
+					if id == "" {
+						if set.Len() == 1 {
+							wantKey, _ = set.Key(0)
+						}
+					} else {
+						for ki := 0; ki < set.Len(); ki++ {
+							if k2, _ := set.Key(ki); k2.KeyID() == id {
+								wantKey = k2
+								break
+							}
+						}
+					}
+					if wantKey != nil && c18want(wantKey) {
+						oracleFail("C18", "load-rejected", c, fmt.Sprintf("the key set (%d bytes) holds an approved key for this request, yet LoadKey fails: %v", len(b), err))
+					}
 				}
 				fmt.Fprintf(out, "CASE\tC18\t%s\t%s\t1\n", sx.String(c), sx.String(obs))
 			}
